@@ -7,7 +7,10 @@ CONSTANTS
   CloseOnNilPayload = TRUE
   PooledBuffer = FALSE
   UEOFIsEnd = FALSE
-  MaxSeq = 4
+  ZeroCopyBuffer = FALSE
+  SeqReaders = {"script", "bytesbuffer", "bytesreader", "stringsreader"}
+  SeqDeepReaders = {"script", "bytesbuffer"}
+  MaxSeq = 3
   MaxContent = 4
   MaxChunks = 5
   MaxChunk = 4
